@@ -363,7 +363,8 @@ def with_edge_templates(draw, spec, same_keys=None, extra_sources=True):
         same_keys = draw(st.booleans())
     seen = set()
     for e in spec["edges"]:
-        pair = (e.get("scope") or "", e["s"], e["t"])
+        pre = (e.get("scope") + "/") if e.get("scope") else ""
+        pair = (pre + e["s"], pre + e["t"])     # absolute: the same pair may be connected from different circuits
         if pair in seen or draw(st.integers(0, 2)) == 0:
             seen.add(pair)
             continue
